@@ -255,3 +255,55 @@ def extra_units():
             w.prop = PROP
             out.append(w)
     return out
+
+
+# ------------------------------------------------------------------------------ the tagger's TAPS classes: calls are made when a molecule is finalised
+# every molecule class the tagger selects for a TAPS method (read from the method table of bamtagmultiome.py on every run) must
+# obtain the methylation calls - and so write the call strings - when it is finalised
+def taps_table_units():
+    from contracts import c06
+    units, seen = [], set()
+    for methods, mol, frag in c06.method_table():
+        if 'TAPS' not in mol or mol in seen:
+            continue
+        seen.add(mol)
+        rel = c06.class_file('molecule', mol)
+        if rel is None:
+            continue
+        units.append(finalise_unit(methods, mol, rel))
+    return units
+
+
+def finalise_setup(eng):
+    eng.ghost.clear()
+    eng.ghost['calls_obtained'] = 0
+    eng.spec_env['GHOST'] = eng.ghost
+    Qm = 'singlecellmultiomics.molecule.'
+
+    def obtain(e, f, a, k, n):
+        e.ghost['calls_obtained'] += 1
+        return {}
+    eng.loader.call_hooks[Qm + 'taps.TAPSMolecule.obtain_methylation_calls'] = obtain
+    eng.loader.call_hooks[Qm + 'molecule.Molecule.iter_reads'] = lambda e, f, a, k, n: []
+    eng.loader.call_hooks[Qm + 'molecule.Molecule.update_mapability'] = lambda e, f, a, k, n: None
+    eng.loader.call_hooks[Qm + 'chic.CHICMolecule.update_ligation_motif'] = lambda e, f, a, k, n: None
+
+
+def finalise_unit(methods, cls, relpath):
+    return Contract(
+        PROP, relpath + '::' + cls, name='%s.__finalise__[methylation calls are obtained; -method %s]' % (cls, ','.join(methods)),
+        harness='''
+MOL.__finalise__()
+return MOL
+''',
+        params={'MOL': lambda eng, name: Obj(cls, {'mapability_reader': None, 'get_consensus_dictionaries_kwargs': {}, 'fragments': [],
+                                                  'finalised': False}, info=eng.loader.classref(relpath, cls))},
+        setup=finalise_setup,
+        ensures={'methylation_calls_are_obtained_when_the_molecule_is_finalised': 'GHOST["calls_obtained"] >= 1',
+                 'and_the_molecule_is_marked_finalised': 'result.finalised == True'},
+        raises={},
+        assumptions=['obtain_methylation_calls through its own contract above; no reads (the colour tag loop is outside the property)'],
+    )
+
+
+UNITS += taps_table_units()
